@@ -103,6 +103,10 @@ func sanitizersForAttributeValue(c context) ([]string, error) {
 		return reverse(appendIfNotEmpty(ret, sanitizer)), nil
 	}
 	urlAttrValPrefix := c.attr.value
+	if urlAttrValPrefix == "" && c.attr.ambiguousValue {
+		// The branch that was kept has an empty prefix, but another conditional branch does not.
+		return nil, fmt.Errorf("actions must not occur after an ambiguous URL prefix in the %q attribute value context of a %q element", c.attr.name, c.element.name)
+	}
 	if urlAttrValPrefix == "" {
 		// Attribute value prefixes in URL or TrustedResourceURL sanitization contexts
 		// must sanitized and normalized.
